@@ -544,6 +544,10 @@ def choose_mutation(rng, H):
                 "key": rng.choice(["cid", "component"]), "dtype": H.dtypes and rng.random() < 0.5,
                 "layout": H.layouts and rng.random() < 0.7}
         r2 = rng.random()
+        wr0 = [n for (dd, n) in getattr(H, "writable", ()) if dd == di and n in names]
+        if wr0 and rng.random() < 0.3:
+            return dict(base, names=rng.sample(wr0, rng.randint(1, min(2, len(wr0)))), variant="in_place_same_object",
+                        dtype=False, layout=False)
         if r2 < 0.10:       # replace the column under its existing ComponentID
             return dict(base, op="add_component_existing_cid", kind="add_component_existing_cid", names=chosen[:1])
         if r2 < 0.15 and m.derived:
@@ -574,6 +578,15 @@ def choose_mutation(rng, H):
             return {"op": "remove_subset_group", "kind": "remove_subset_group", "s": None, "k": rng.choice(removable)}
         if r2 < 0.68 and H.with_dc:
             return {"op": "dc_remove_readd", "kind": "dc_remove_readd", "d": di}
+        if r2 < 0.82:
+            # the array glue holds is fetched, edited in place and handed back as the SAME object.  Columns as first
+            # added are read-only (Component.__init__); one that a previous update_components replaced is writeable
+            wr = [n for (dd, n) in getattr(H, "writable", ()) if dd == di and n in names]
+            if wr or rng.random() < 0.15:
+                return dict(base, names=rng.sample(wr, rng.randint(1, min(2, len(wr)))) if wr else chosen,
+                            variant="in_place_same_object", dtype=False, layout=False)
+        if r2 < 0.86:
+            return dict(base, variant="equal_copy_of_unchanged_values", dtype=False)
         return base
     r3 = rng.random()
     if r3 < 0.10 and H.undo:
@@ -676,6 +689,7 @@ def perform(H, mut):
             ctx.count("mutations:variant:" + variant)
         if op in ("update_components", "add_component_existing_cid"):
             new = {}
+            same_obj = {}
             if variant == "same_values_again":
                 new = {n: np.array(m.get(n)) for n in mut["names"]}
             elif variant == "back_to_earlier_values":
@@ -683,6 +697,28 @@ def perform(H, mut):
                 new = {n: a for n, a in H.data_undo.pop(rng.choice(idx))[1].items()
                        if a.shape == m.shape and n in [c[0] for c in m.comps]}
                 mut["names"] = sorted(new)
+            elif variant == "equal_copy_of_unchanged_values":
+                new = {n: np.array(m.get(n)) for n in mut["names"]}
+            elif variant == "in_place_same_object":
+                for n in mut["names"]:
+                    cid = d.id[n]
+                    values = d[cid] if rng.random() < 0.5 else d.get_component(cid).data
+                    if not isinstance(values, np.ndarray) or not values.flags.writeable:
+                        ctx.count("in_place_edit_impossible:read_only_array")
+                        new[n] = W.gen_values(rng, W.COMP_KINDS[n], m.shape)
+                        continue
+                    how = rng.choice(["assign_all", "assign_all", "one_element", "one_element", "times_two"])
+                    fresh = W.gen_values(rng, W.COMP_KINDS[n], m.shape)
+                    if how == "assign_all":
+                        values[...] = fresh.astype(values.dtype)
+                    elif how == "one_element":
+                        k = rng.randrange(values.size)
+                        values[np.unravel_index(k, values.shape)] = fresh.flat[k].astype(values.dtype)
+                    else:
+                        values *= 2
+                    ctx.count("in_place_edit:" + how)
+                    new[n] = np.array(values)        # what the column holds now (the harness's own edit)
+                    same_obj[n] = values
             elif variant == "near_equal_values":
                 # two successive updates of one element to either side of a bound, allclose to each other
                 name, t = mut["nudge"]
@@ -704,7 +740,9 @@ def perform(H, mut):
                 del H.data_undo[:-6]
             handed = {}
             for n, a in new.items():
-                if mut.get("layout"):
+                if n in same_obj:
+                    handed[n] = same_obj[n]
+                elif mut.get("layout"):
                     handed[n], how = W.layout_variant(rng, a)
                     ctx.count("class:update_layout:" + how)
                 else:
@@ -830,6 +868,13 @@ def perform(H, mut):
         if H.probe is not None:
             H.probe.todo = H.probe.mid = None
         verify(H, H.reads, twin, mut, False)
+        if not hasattr(H, "writable"):
+            H.writable = set()
+        if op == "update_components":
+            for n, a in handed.items():
+                (H.writable.add if a.flags.writeable else H.writable.discard)((di, n))
+        elif op == "update_values_from_data":
+            H.writable = set(x for x in H.writable if x[0] != di)
         H.last_mut = mut if op == "update_components" and not variant else None
         if variant == "near_equal_values" and not mut.get("second_half"):
             return perform(H, dict({k: v for k, v in mut.items() if k != "then_data"}, second_half=True))
@@ -1617,7 +1662,7 @@ def floors(c, tier):
             "indices": 25, "hist:update_components": 12, "hist:viewer_setting": 20, "hist:subset_replace": 4,
             "prof:update_components": 15, "prof:viewer_setting": 15, "prof:subset_replace": 4,
             # classes of the adversarial widening round
-            "add_component_existing_cid": 4, "variant:near_equal_values": 4,
+            "add_component_existing_cid": 4, "variant:near_equal_values": 4, "variant:in_place_same_object": 10,
             "variant:reentrant_update": 6}
     for k, n in need.items():
         got = c.get("post_mutation_rereads_truth_changed:" + k, 0)
